@@ -181,4 +181,108 @@ theorem sequential_lowest (s : State) (p : Nat) (s' : State) (r : Option (Nat ×
         rw [← he.2]; exact this
   · simp at hr
 
+/-! ### the ladder before the fixes: counterexamples -/
+
+/-- Pick results of a list of outcomes (`none` = a panic outcome). -/
+def pickResults (l : List (R (State × Option (Nat × Bool)))) : List (Option (Option (Nat × Bool))) :=
+  l.map fun r => match r with
+    | .ok (_, x) => some x
+    | .error _ => none
+
+/-- DESIGN 10 #17b: ten pieces of one file all held by the unchoking peer 0, both file-edge pieces
+done, allowed-fast set {7}. -/
+def cexAllowedFast : State :=
+  { n := 10
+    pieces := fun i => { having := [0], done := i == 0 || i == 9, head := i == 0, tail := i == 9 }
+    np := 1
+    peers := fun _ => { choking := false, af := [7] }
+    ns := 0
+    srcs := fun _ => none
+    maxDup := 2, maxWeb := 1, available := 10, endgame := false, sequential := true }
+
+/-- **Counterexample (before 8da1edd).** The state satisfies `PickInv` and the hypotheses of
+`sequential_lowest`, the lowest pickable piece is 1, and the old ladder returns the allowed-fast
+piece 7; the ladder as it is now returns piece 1. -/
+theorem legacy_allowedFast_counterexample :
+    PickInv cexAllowedFast ∧ SeqHyp cexAllowedFast 0 ∧ lowestPickable cexAllowedFast 0 = some 1 ∧
+    pickResults (findPiece true cexAllowedFast 0) = [some (some (7, true))] ∧
+    ¬ SeqLowest cexAllowedFast 0 (some 7) ∧
+    pickResults (findPiece false cexAllowedFast 0) = [some (some (1, false))] := by
+  decide
+
+/-- Six pieces, edges done, end game entered earlier; pieces 1 and 3 are being downloaded by peers
+0 and 2, pieces 2 and 4 became free again; peer 1 is idle and unchoking. -/
+def cexEndgame : State :=
+  { n := 6
+    pieces := fun i =>
+      { having := [0, 1, 2], done := i == 0 || i == 5, head := i == 0, tail := i == 5
+        requested := if i == 1 then [0] else if i == 3 then [2] else [] }
+    np := 3
+    peers := fun p => { choking := false, dl := if p == 0 then some (1, false) else if p == 2 then some (3, false) else none }
+    ns := 0
+    srcs := fun _ => none
+    maxDup := 2, maxWeb := 1, available := 6, endgame := true, sequential := true }
+
+/-- **Counterexample (before 166d17e).** With the end-game flag set, the old ladder went straight
+to `pickEndgame`, whose order is that of the last sort by running downloads: piece 4 is an
+admissible answer although piece 2 is the lowest pickable one. The ladder as it is now returns 2. -/
+theorem legacy_endgame_counterexample :
+    PickInv cexEndgame ∧ SeqHyp cexEndgame 1 ∧ lowestPickable cexEndgame 1 = some 2 ∧
+    some (some (4, false)) ∈ pickResults (findPiece true cexEndgame 1) ∧
+    ¬ SeqLowest cexEndgame 1 (some 4) ∧
+    pickResults (findPiece false cexEndgame 1) = [some (some (2, false))] := by
+  decide
+
+
+/-! ### non-vacuity -/
+
+/-- Follow the first admissible outcome of every operation. -/
+def runFirst (s : State) : List Op → Option State
+  | [] => some s
+  | op :: ops =>
+    match step false s op with
+    | .ok (s1, _) :: _ => runFirst s1 ops
+    | _ => none
+
+theorem runFirst_run : ∀ (ops : List Op) (s s' : State), runFirst s ops = some s' → Run s ops s'
+  | [], s, s', h => by simp [runFirst] at h; subst h; exact Run.nil s
+  | op :: ops, s, s', h => by
+    simp only [runFirst] at h
+    split at h
+    · rename_i s1 o rest heq
+      exact Run.cons (by rw [heq]; exact List.Mem.head _) (runFirst_run ops s1 s' h)
+    · cases h
+
+/-- A history that exercises the indexes: two peers, end game on piece 1 (limit 2), one peer choked in
+the middle of the download and one snubbed, a web-seed range picked and then truncated by the write. -/
+def sampleOps : List Op :=
+  [.connect, .connect, .have 0 1, .have 1 1, .have 0 2, .have 1 3, .unchoke 0, .unchoke 1,
+   .pick 0, .pick 1, .pickweb 0, .pdone 0, .pick 0, .wok 1 false, .pick 1, .choke 1, .snub 0, .afast 1 2]
+
+/-- Non-vacuity of `pickInv_all_histories`: the sample history is a `Run` from a fresh sequential
+picker, and it ends in a state with non-empty `Requested`, `Snubbed`, `Choked`, a finished piece
+and a downloading web seed. -/
+example : ∃ s, Run (init [(false, true, false), (false, false, false), (false, false, false), (false, false, true)] 2 1 true) sampleOps s ∧
+    (s.pieces 2).requested = [0] ∧ (s.pieces 2).snubbed = [0] ∧ (s.pieces 3).choked = [1] ∧
+    (s.pieces 1).done = true ∧ (s.srcs 0).isSome = true ∧ s.available = 3 := by
+  have h : ∃ s, runFirst (init [(false, true, false), (false, false, false), (false, false, false), (false, false, true)] 2 1 true) sampleOps = some s ∧
+      ((s.pieces 2).requested = [0] ∧ (s.pieces 2).snubbed = [0] ∧ (s.pieces 3).choked = [1] ∧
+       (s.pieces 1).done = true ∧ (s.srcs 0).isSome = true ∧ s.available = 3) := by
+    cases hr : runFirst (init [(false, true, false), (false, false, false), (false, false, false), (false, false, true)] 2 1 true) sampleOps with
+    | none => exact absurd hr (by decide)
+    | some s => exact ⟨s, rfl, by
+        have : (runFirst (init [(false, true, false), (false, false, false), (false, false, false), (false, false, true)] 2 1 true) sampleOps).all
+          (fun s => decide ((s.pieces 2).requested = [0] ∧ (s.pieces 2).snubbed = [0] ∧ (s.pieces 3).choked = [1] ∧
+            (s.pieces 1).done = true ∧ (s.srcs 0).isSome = true ∧ s.available = 3)) = true := by decide
+        rw [hr] at this; simpa using this⟩
+  obtain ⟨s, hs, hp⟩ := h
+  exact ⟨s, runFirst_run _ _ _ hs, hp⟩
+
+/-- Non-vacuity of `sequential_lowest` and `pick_safe`: in `cexAllowedFast` the hypotheses hold, a
+piece is pickable, and the protocol step returns it. -/
+example : SeqHyp cexAllowedFast 0 ∧ lowestPickable cexAllowedFast 0 = some 1 ∧
+    ((step false cexAllowedFast (.pick 0)).map fun r => r.toOption.map (·.2)) = [some (.pick (some (1, false)))] ∧
+    PickSafe cexAllowedFast 0 1 := by decide
+
 end Rain.Props.C09
+
